@@ -158,7 +158,7 @@ def crash_site(err):
     return kind + (" in " + " <- ".join(frames) if frames else "")
 
 
-def run_lines(exe, lines, prefix, timeout=900, max_crashes=25):
+def run_lines(exe, lines, prefix, timeout=900, max_crashes=25, per_proc=240):
     """run all lines; the harness may crash on a case (sanitizer abort): record it and continue after it.
     returns (outputs aligned with lines — None for a crashed case, crashes[list of (index, site, stderr)])"""
     out = [None] * len(lines)
@@ -168,7 +168,18 @@ def run_lines(exe, lines, prefix, timeout=900, max_crashes=25):
     t0 = time.time()
     while start < len(lines):
         inp = "".join(prefix + l + "\n" for l in lines[start:])
-        r = subprocess.run([exe], input=inp, capture_output=True, text=True, timeout=max(60, timeout - (time.time() - t0)), env=env)
+        try:
+            # per_proc: a single harness process that runs this long is stuck (e.g. the sanitizer runtime deadlocking inside its
+            # own error report): it is killed and the case it was working on counts as a crash at site "hang …"
+            r = subprocess.run([exe], input=inp, capture_output=True, text=True,
+                               timeout=max(60, min(per_proc, timeout - (time.time() - t0))), env=env)
+        except subprocess.TimeoutExpired as e:
+            if time.time() - t0 >= timeout - 1:
+                raise
+            def _txt(b):
+                return b.decode("utf-8", "replace") if isinstance(b, bytes) else (b or "")
+            so, se = _txt(e.stdout), _txt(e.stderr)
+            r = subprocess.CompletedProcess([exe], -9, so, "HANG: harness process killed after %ds without finishing\n" % per_proc + se)
         got = [x for x in r.stdout.split("\n")]
         # complete lines are those followed by a newline
         complete = got[:-1] if got else []
@@ -252,7 +263,7 @@ class EventPart:
             for tok in l.split("|")[1].replace("(", " ").replace(")", " ").split():
                 if tok.isalpha():
                     hist[tok] = hist.get(tok, 0) + 1
-            if "!!root" in a or "!!completion" in a or "!!leak" in a or "!!tvleak" in a or "!!cbreg" in a or "!!alloc" in a:
+            if "!!root" in a or "!!completion" in a or "!!leak" in a or "!!tvleak" in a or "!!errleak" in a or "!!cbreg" in a or "!!alloc" in a:
                 verdict.add(f"{self.name}: monitor {([x for x in __import__('re').findall(r'!!([a-z-]+)', a) if x != 'bad-op'] or ['bad-op'])[0]}", f"implementation monitor fired: {a}",
                             dict(stream=self.name, case=l, impl=a, model=b), found_input=True)
             if a != b:
